@@ -1413,6 +1413,28 @@ def capacity_matches_allocation(prog, rule, units=("value.c",)):
             match = [c for (c, lf, cnt) in allocs if lf is not None and lf == want]
             smaller = [c for (c, lf, cnt) in allocs if lf is not None and lf != want
                        and all(lf.get(k2, 0) == want.get(k2, 0) for k2 in set(lf) | set(want) if k2) and want.get("", 0) <= lf.get("", 0)]
+            # every allocation that can be the last one before this store must agree with it (a retry with another size)
+            okids = {c.get("id") for c in match + smaller}
+            call_block = {}
+            for (b3, i3, r3, c3) in fn.calls():
+                call_block[c3.get("id")] = b3.id
+            others = {call_block.get(c.get("id")) for (c, lf, cnt) in allocs} - {None}
+            stray = []
+            for (c, lf, cnt) in allocs:
+                if c.get("id") in okids or lf is None:
+                    continue
+                cb_ = call_block.get(c.get("id"))
+                if cb_ is None:
+                    continue
+                if b.id in (cfgq.reach(fn, [cb_], others - {cb_}) | {cb_}):
+                    stray.append((c, cnt))
+            if (match or smaller) and stray:
+                c, cnt = stray[0]
+                rule.violation(fn.file, fn.name, a.get("l"), "capacity-not-last-allocation:%s" % fn.name,
+                               "`%s = %s` (L%s) can follow the allocation at L%s, which asked for `%s` elements: after that (re)try "
+                               "the block is smaller than the capacity recorded, and later writes that trust it overrun the block"
+                               % (lp, show(a.get("rhs"))[:40], a.get("l"), c.get("l"), show(cnt)[:40]))
+                continue
             if match or smaller:
                 rule.ok(key, "equals the element count of the allocation at L%s" % (match or smaller)[0].get("l"))
             else:
@@ -1705,5 +1727,162 @@ def stale_state_copies(prog, rule, unit, field, describe, callbacks_clobber=True
                                "having been recomputed: %s" % (name, field, ", ".join(sorted(prog.callees(fn) & writers))[:120], x.get("l"), describe))
             else:
                 rule.ok("%s:%s" % (fn.name, name), "recomputed (or reset) after every call that may change %s" % field)
+    return n
+
+
+def hash_iter_lookahead(prog, rule):
+    """HASH_ITER(hh, head, el, tmp) keeps the next element in `tmp` so that the body may delete `el`; the step is `el = tmp`.
+    Anything in the loop body that stores to `tmp` (an assignment, a HASH_FIND whose output is `tmp`, its address handed to a
+    callee) makes the iteration continue from the wrong element or stop early.  Returns the number of iterations examined."""
+    from . import loops
+    n = 0
+    for fn in prog.all_functions():
+        iters = {}
+        for (b, i, r, x) in fn.eval_sites("asg"):
+            ms = x.get("ms") or []
+            if not ms or ms[0] != "HASH_ITER" or x.get("op") != "=":
+                continue
+            lp, rp = path(strip(x.get("lhs"))), path(strip(x.get("rhs")))
+            if lp and rp and re.match(r"^\w+$", lp) and re.match(r"^\w+$", rp):
+                iters[(x.get("l"), lp, rp)] = b.id          # the step `el = tmp`
+        if not iters:
+            continue
+        lps = loops.natural_loops(fn)
+        for (line, el, tmp), step_block in sorted(iters.items()):
+            cands = [lp_ for lp_ in lps if step_block in lp_.body]
+            if not cands:
+                continue
+            lp_ = min(cands, key=lambda z: len(z.body))
+            n += 1
+            bad = None
+            for bid in lp_.body:
+                for r in fn.blocks[bid].roots:
+                    for x in walk_eval(r):
+                        own = (x.get("ms") or [None])[0] == "HASH_ITER" and x.get("l") == line
+                        if own:
+                            continue
+                        if x.get("k") == "asg" and path(strip(x.get("lhs"))) == tmp:
+                            bad = (x, "is assigned" + (" by %s" % x["ms"][0] if x.get("ms") else ""))
+                        elif x.get("k") == "un" and x.get("op") == "&" and path(strip(x.get("e"))) == tmp and \
+                                not ((x.get("ms") or [None])[0] == "HASH_ITER"):
+                            bad = (x, "has its address taken")
+                        elif x.get("k") == "un" and x.get("op") in ("pre++", "post++", "pre--", "post--") and path(strip(x.get("e"))) == tmp:
+                            bad = (x, "is modified")
+            key = "%s:L%s:HASH_ITER(%s, %s)" % (fn.name, line, el, tmp)
+            if bad:
+                rule.violation(fn.file, fn.name, bad[0].get("l"), "hash-iter-lookahead-written:%s:%s" % (fn.name, tmp),
+                               "`%s`, the look-ahead variable of the HASH_ITER at L%s, %s at L%s inside the loop body: the step "
+                               "`%s = %s` then continues from that value - the iteration skips the remaining entries or ends early"
+                               % (tmp, line, bad[1], bad[0].get("l"), el, tmp))
+            else:
+                rule.ok(key, "the body does not write the look-ahead variable")
+    return n
+
+
+_UNSIGNED_T = re.compile(r"^(const )?(unsigned\b.*|UChar|UChar32|size_t|uint\d+_t|u_?int\d*|_Bool|cif_kind_tp|enum .*)$")
+
+
+def signed_index_lower_bound(prog, rule, units=("parser.c", "utils.c", "ciffile.c")):
+    """An element access `A[i]` into an array of fixed size with an index variable of a signed type needs more than the upper
+    bound test: every value the variable can have been given is non-negative by construction (a non-negative constant, a
+    value of unsigned type, its own increment), or a test `i >= 0` dominates the access.  `int uc = *p` with p a `char *` is
+    the classic slip: bytes from 0x80 up are negative and pass `uc < N`."""
+    n = 0
+    for fn in prog.all_functions():
+        if units and fn.unit not in units:
+            continue
+        for (b, i, r, x) in fn.eval_sites("index"):
+            bt = (strip(x.get("base")) or {}).get("t", "") or ""
+            if not re.search(r"\[\d+\]$", bt.strip()):
+                continue
+            ix = strip(x.get("idx"))
+            if not isinstance(ix, dict) or ix.get("k") != "ref" or const(ix) is not None:
+                continue
+            t = (ix.get("t") or "").strip()
+            if _UNSIGNED_T.match(t) or not re.match(r"^(const )?(signed )?(int|char|short|long|ssize_t|int\d+_t)\b", t):
+                continue
+            var = ix["name"]
+            did = ix.get("did")
+            n += 1
+            key = "%s:L%s:%s[%s]" % (fn.name, x.get("l"), (path(strip(x.get("base"))) or "array")[-24:], var)
+            defs = []
+            for (b2, i2, r2, y) in fn.eval_sites():
+                if y.get("k") == "decl":
+                    for v in y.get("vars", []):
+                        # same declaration (two blocks may each declare a local of this name)
+                        if v["name"] == var and v.get("init") is not None and (did is None or v.get("did") in (None, did)):
+                            defs.append(v["init"])
+                elif y.get("k") == "asg" and path(strip(y.get("lhs"))) == var and \
+                        (did is None or strip(y.get("lhs")).get("did") in (None, did)):
+                    if y.get("op") == "=":
+                        defs.append(y.get("rhs"))
+                    elif y.get("op") in ("+=",) and const(y.get("rhs")) is not None and const(y.get("rhs")) >= 0:
+                        pass
+                    else:
+                        defs.append(y)
+
+            def nonneg(e, depth=0):
+                e0 = e
+                e = strip(e)
+                if not isinstance(e, dict) or depth > 4:
+                    return False
+                c = const(e)
+                if c is not None:
+                    return c >= 0
+                # a conversion to an unsigned type anywhere in the chain of casts
+                cc = e0
+                while isinstance(cc, dict) and cc.get("k") == "cast":
+                    if _UNSIGNED_T.match((cc.get("t") or "").strip()):
+                        return True
+                    cc = cc.get("e")
+                if _UNSIGNED_T.match((e.get("t") or "").strip()):
+                    return True
+                if e.get("k") == "cond":
+                    return nonneg(e.get("then"), depth + 1) and nonneg(e.get("else"), depth + 1)
+                if e.get("k") == "bin" and e.get("op") in ("+", "*", "/", "%", "&", ">>"):
+                    if e["op"] == "&":
+                        return nonneg(e.get("lhs"), depth + 1) or nonneg(e.get("rhs"), depth + 1)
+                    return nonneg(e.get("lhs"), depth + 1) and nonneg(e.get("rhs"), depth + 1)
+                if e.get("k") == "ref" and e.get("name") == var:
+                    return True
+                return False
+            bad = [d for d in defs if not nonneg(d)]
+            # a negative starting constant made up for by an increment that every path to the access passes (`off = -1` ...
+            # `off += 1; a[off]`)
+            if bad and all(const(d) is not None for d in bad):
+                need = -min(const(d) for d in bad)
+                incs = []
+                for (b2, i2, r2, y) in fn.eval_sites():
+                    if y.get("k") == "asg" and y.get("op") == "+=" and path(strip(y.get("lhs"))) == var and (const(y.get("rhs")) or 0) >= need:
+                        incs.append((b2.id, i2))
+                    elif y.get("k") == "un" and y.get("op") in ("pre++", "post++") and path(strip(y.get("e"))) == var and need <= 1:
+                        incs.append((b2.id, i2))
+                if incs and cfgq.must_precede(fn, (b.id, i), incs):
+                    rule.ok(key, "starts at %d and is incremented before every access" % -need)
+                    continue
+            if not bad and defs:
+                rule.ok(key, "every value given to `%s` is non-negative by construction (%d definitions)" % (var, len(defs)))
+                continue
+            # a dominating lower-bound test
+
+            def lower(cnd):
+                t2 = cfgq.cmp_test(cnd, lambda e: path(strip(e)) == var)
+                if t2 is None:
+                    return None
+                op, c = t2
+                if op == ">=" and c >= 0 or op == ">" and c >= -1:
+                    return "true"
+                if op == "<" and c <= 0 or op == "<=" and c <= -1:
+                    return "false"
+                return None
+            ge = cfgq.guard_edges(fn, lower)
+            if ge and cfgq.must_pass_edge(fn, b.id, ge):
+                rule.ok(key, "dominated by a test that `%s` is not negative" % var)
+            else:
+                src = show(bad[0])[:40] if bad else "a parameter or an unknown value"
+                rule.violation(fn.file, fn.name, x.get("l"), "signed-index-no-lower-bound:%s:%s" % (fn.name, var),
+                               "`%s` (type %s) indexes %s at L%s; it can hold `%s`, which may be negative, and no test for "
+                               "`%s >= 0` dominates the access (an upper-bound test alone lets negative values through)"
+                               % (var, t, (path(strip(x.get("base"))) or "the array"), x.get("l"), src, var))
     return n
 
